@@ -6,4 +6,5 @@ CONSTANT SingleMultiClash = TRUE
 INVARIANT InvVerdict
 INVARIANT InvErrorKind
 INVARIANT InvSemantics
+INVARIANT InvCount
 INVARIANT InvPrev
